@@ -57,6 +57,30 @@ class _EraseAnnotations(ast.NodeTransformer):
         return ast.copy_location(ast.Pass(), node)
 
 
+class FuncIndex(dict):
+    """qualname -> FunctionDef of one module.  Looking a name up also follows module-level aliases of functions defined in the
+    module (``extract_label = Labels.extract``): the alias finds the definition, iteration yields each definition once."""
+
+    def __init__(self):
+        dict.__init__(self)
+        self.aliases = {}       # alias name -> qualname
+
+    def __contains__(self, key):
+        return dict.__contains__(self, key) or key in self.aliases
+
+    def __getitem__(self, key):
+        if dict.__contains__(self, key):
+            return dict.__getitem__(self, key)
+        return dict.__getitem__(self, self.aliases[key])
+
+    def get(self, key, default=None):
+        return self[key] if key in self else default
+
+    def key_of(self, name):
+        """The qualname a name or alias stands for."""
+        return name if dict.__contains__(self, name) else self.aliases.get(name, name)
+
+
 class Module(object):
     def __init__(self, name, path, relpath, source):
         self.name = name            # dotted, e.g. hotxlfp.formulas.utils
@@ -66,7 +90,7 @@ class Module(object):
         self.tree = ast.fix_missing_locations(_EraseAnnotations().visit(ast.parse(source, filename=path)))
         self.is_pkg = os.path.basename(path) == '__init__.py'
         self.imports = {}           # local alias -> ('module', dotted) | ('attr', dotted_module, attr)
-        self.functions = {}         # qualname -> FunctionDef / Lambda assigned at module level
+        self.functions = FuncIndex()   # qualname -> FunctionDef / Lambda assigned at module level (aliases resolved on lookup)
         self.classes = {}           # name -> ClassDef
         self.constants = {}         # name -> value node (last module-level assignment)
         self.assign_counts = {}     # name -> number of module-level (re)bindings
@@ -96,6 +120,18 @@ class Module(object):
             self._index_stmt(node)
         # functions (all nesting levels) by qualname
         self._index_funcs(self.tree.body, '')
+        # module-level aliases of functions / methods defined in this module:  name = other  |  name = Class.method
+        for nm, val in self.constants.items():
+            if self.assign_counts.get(nm, 0) != 1 or dict.__contains__(self.functions, nm):
+                continue
+            q = None
+            if isinstance(val, ast.Name) and dict.__contains__(self.functions, val.id):
+                q = val.id
+            elif isinstance(val, ast.Attribute) and isinstance(val.value, ast.Name) and val.value.id in self.classes \
+                    and dict.__contains__(self.functions, '%s.%s' % (val.value.id, val.attr)):
+                q = '%s.%s' % (val.value.id, val.attr)
+            if q is not None:
+                self.functions.aliases[nm] = q
 
     def _index_stmt(self, node):
         if isinstance(node, ast.Import):
@@ -143,6 +179,21 @@ class Module(object):
                 for h in getattr(node, 'handlers', []) or []:
                     subs.extend(h.body)
                 self._index_funcs(subs, prefix)
+
+    def class_constants(self):
+        """{'Cls.NAME': value node} for names bound exactly once in a class body at module level (a class used as a namespace)."""
+        out = {}
+        for cname, c in self.classes.items():
+            counts = {}
+            for n in c.body:
+                if isinstance(n, ast.Assign):
+                    for t in n.targets:
+                        if isinstance(t, ast.Name):
+                            counts.setdefault(t.id, []).append(n.value)
+            for nm, vals in counts.items():
+                if len(vals) == 1:
+                    out['%s.%s' % (cname, nm)] = vals[0]
+        return out
 
     def parent(self, node):
         return self.parents.get(id(node))
@@ -272,6 +323,14 @@ class Model(object):
                 return ('extattr', dotted, node.attr)
             if base[0] == 'extattr':
                 return ('extattr', base[1], base[2] + '.' + node.attr)
+            if base[0] == 'class':
+                # Cls.method / Cls.CONSTANT of a package class
+                lm = self.lookup_method(base[1], base[2], node.attr)
+                if lm:
+                    return ('func', lm[0], lm[2])
+                ca = self.class_attr(base[1], base[2], node.attr)
+                if ca:
+                    return ('const', ca[0], '%s.%s' % (ca[1].name, node.attr), ca[2])
         return None
 
     # -- classes ----------------------------------------------------------------------------
